@@ -58,7 +58,9 @@ def parse_spec(s):
 
 
 def tokenize(p):
-    """-> list of ('lit', text) | ('ph', body)"""
+    """-> list of ('lit', text) | ('ph', body).  Literal text is split into pieces at every character that stems from a '%' construct
+    ('%%', the '%' of an unterminated '%{'): whether a remove-after count that exceeds one piece continues into the next is not
+    documented, so evaluate() yields both readings."""
     toks = []
     lit = []
     i = 0
@@ -70,7 +72,11 @@ def tokenize(p):
             if d == "{":
                 j = p.find("}", i + 2)
                 if j == -1:
-                    lit.append("%")
+                    # an unterminated "%{" is literal text; it is a piece of its own (see the remove-after accept-set in evaluate)
+                    if lit:
+                        toks.append(("lit", "".join(lit)))
+                        lit = []
+                    toks.append(("lit", "%"))
                     i += 1
                     continue
                 if lit:
@@ -80,7 +86,10 @@ def tokenize(p):
                 i = j + 1
                 continue
             if d == "%":
-                lit.append("%")
+                if lit:
+                    toks.append(("lit", "".join(lit)))
+                    lit = []
+                toks.append(("lit", "%"))
                 i += 2
                 continue
         lit.append(c)
@@ -191,9 +200,18 @@ def evaluate(pattern, msg, opts):
                     raise Corner("remove-after target literal is conditional")
                 continue
             text = body
+            if pending_after and u16len(text) < pending_after:
+                # "remove M chars after" with fewer than M literal characters following: the documentation is silent on whether the
+                # surplus is dropped or carried on; removing less than the whole literal is not among the readings
+                if opts.get("after_over", "stop") == "stop":
+                    pending_after = 0
+                else:
+                    pending_after -= u16len(text)
+                text = ""
+                last_lit_units = (last_lit_units if prev_kind == "lit" else 0)
+                prev_kind = "lit"
+                continue
             if pending_after:
-                if u16len(text) < pending_after:
-                    raise Corner("remove-after exceeds following literal")
                 tu = u16(text)[pending_after:]
                 if tu and 0xdc00 <= tu[0] <= 0xdfff:
                     raise Corner("remove-after splits a surrogate pair")
@@ -348,8 +366,8 @@ def evaluate(pattern, msg, opts):
     return out
 
 
-OPTION_SPACE = [dict(model=m, missing=mi, time_ms=t, short_n=sn)
-                for m in "uc" for mi in ("echo", "empty") for t in (False, True) for sn in ("none", "all")]
+OPTION_SPACE = [dict(model=m, missing=mi, time_ms=t, short_n=sn, after_over=ao)
+                for m in "uc" for mi in ("echo", "empty") for t in (False, True) for sn in ("none", "all") for ao in ("stop", "carry")]
 
 
 def accept_set(pattern, msg):
